@@ -1817,7 +1817,8 @@ func ruleRecoveryPersistsFixes(r *Run, rule string) {
 			badOrder = ShortFn(k) + " writes the objects in walk order (an object before what it contains): a crash during these writes can leave a parent stored as finished over a child whose repair was not written yet, which the next recovery then never looks at again — the repairs must be written children first"
 		}
 	}
-	if len(writers) > 0 {
-		r.Check(rule, "Recovery:repairs-written-children-first", opos, badOrder == "", "%s", orOK(badOrder, "written from the end of the walk backwards"))
+	if len(writers) == 0 {
+		badOrder = "Recovery has no write-back of the repairs at all on its resuming path, so they are not written children first either"
 	}
+	r.Check(rule, "Recovery:repairs-written-children-first", opos, badOrder == "", "%s", orOK(badOrder, "written from the end of the walk backwards"))
 }
